@@ -1,5 +1,6 @@
 import Pds.Proofs.KernelTie.QfUnion
-import Pds.Proofs.KernelTie.Merge
+import Pds.Proofs.KernelTie.MergeHll
+import Pds.Proofs.KernelTie.MergeCms
 import Pds.Proofs.KernelTie.CuckooUnion
 /-!
 # C06 — tie by translation (flow mode): `CuckooFilter::union`
